@@ -19,9 +19,9 @@ func init() { checks["C03"] = c03{} }
 func (c03) Level() string { return "exploration" }
 func (c03) NumCases(tier string) int {
 	if tier == "thorough" {
-		return 20000
+		return 100000
 	}
-	return 600
+	return 3000
 }
 func (c03) Rule() string {
 	return "case = one engine, a pool of 3..8 generated templates (emphasis: array filters sort/sort_natural/reverse/uniq/concat/compact/map, loops with cycle, assign/capture of names that shadow bindings, cached includes) and 2..5 binding environments that share slices/maps by reference, plus a seeded history of 2..40 steps: render(t,b) through a random entry point; render aborted by a writer that fails at a random write k; parse-and-render of a fresh copy of a pool source; render of an unrelated pair. Reference model: render is a pure function -- expected[(t,b)] computed in isolation (fresh engine, fresh parse, freshly built equal bindings). After EVERY step: the fault-free result equals expected, and the canonical deep snapshot (types, contents, pointer structure, unexported fields) of every environment equals its snapshot before the history. Non-trivial step: it follows at least one other step; distinct by hash(pool, history prefix)."
@@ -347,6 +347,9 @@ func c03Violation(c *Ctx, cs *C03Case, f c03Fail, idx int) *Violation {
 	orig := *cs
 	orig.FailAt = f.step
 	ob, _ := json.Marshal(orig)
+	if !c.mayMinimise(f.sig) {
+		return &Violation{Property: c.Prop, Clause: f.clause, Detail: f.detail, Signature: f.sig, Seed: c.Seed, Index: idx, Case: ob}
+	}
 	deadline := time.Now().Add(25 * time.Second)
 	cur := orig
 	test := func(cand *C03Case) (c03Fail, bool) {
